@@ -94,8 +94,11 @@ Start(p) ==
      fors |-> <<>>, whiles |-> <<>>, gosubs |-> <<>>, dp |-> 1,
      onerr |-> 0, inh |-> FALSE, resume |-> None, err |-> 0, erl |-> 0,
      traps |-> NoTraps, susp |-> FALSE,
+     fns |-> <<>>,          \* DEF FN definitions executed so far: sequence of [f, ps, e] (the last one for a name counts)
+     parsing |-> {},        \* names of the user functions whose body is being evaluated (recursion guard)
      out |-> <<>>, stat |-> [k |-> "run", code |-> 0, line |-> 0],
-     havoc |-> {}, frag |-> FALSE]
+     havoc |-> {}, frag |-> FALSE,
+     kf |-> FALSE]          \* TRUE: this behaviour is only explained by a listed known deviation (see DoClear)
 
 VarIdx(s, v) == CHOOSE i \in 1..Len(Prog(s).vars) : Prog(s).vars[i] = v
 Get(s, v) == s.vars[VarIdx(s, v)]
@@ -127,12 +130,41 @@ NotI(a) == -a - 1
 OrI(a, b) == NotI(AndI(NotI(a), NotI(b)))
 Chk(v) == IF Abs(v) > Limit THEN Er(-1) ELSE Ok(v)
 
-RECURSIVE Eval(_, _)
+(* User-defined functions (C20).  A call evaluates and converts the arguments, refuses recursion with Out of memory,
+   binds the parameters, evaluates the body and converts the result to the function's type.  Evaluation is a pure
+   function of the machine state: whatever the outcome (value or error), NO variable of the caller changes - the
+   parameters only shadow variables of the same name while the body is evaluated.                                *)
+FnDef(s, f) == LET c == {i \in 1..Len(s.fns) : s.fns[i].f = f} IN
+               IF c = {} THEN [f |-> "", ps |-> <<>>, e |-> [k |-> "c", v |-> 0]]
+               ELSE s.fns[CHOOSE i \in c : \A j \in c : j <= i]
+RECURSIVE Eval(_, _), EvalArgs(_, _, _, _), EvalFn(_, _)
+\* arguments left to right, each converted to the type of its parameter; result: [ok, vs (sequence), code]
+EvalArgs(s, ps, args, j) ==
+    IF j > Len(args) THEN [ok |-> TRUE, vs |-> <<>>, code |-> 0]
+    ELSE LET a == Eval(s, args[j]) IN
+         IF ~a.ok THEN [ok |-> FALSE, vs |-> <<>>, code |-> a.code]
+         ELSE IF IsIntVar(s, ps[j]) /\ ~InInt16(a.v) THEN [ok |-> FALSE, vs |-> <<>>, code |-> 6]
+         ELSE LET r == EvalArgs(s, ps, args, j + 1) IN
+              IF ~r.ok THEN r ELSE [ok |-> TRUE, vs |-> <<a.v>> \o r.vs, code |-> 0]
+EvalFn(s, e) ==
+    LET d == FnDef(s, e.f) IN
+    IF d.f = "" THEN Er(18)                                   \* Undefined user function
+    ELSE IF Len(d.ps) # Len(e.args) THEN Er(-1)               \* wrong number of arguments: not generated
+    ELSE LET r == EvalArgs(s, d.ps, e.args, 1) IN
+         IF ~r.ok THEN Er(r.code)
+         ELSE IF e.f \in s.parsing THEN Er(7)                  \* a function that calls itself: Out of memory
+         ELSE LET bound == [i \in 1..Len(s.vars) |->
+                               LET c == {j \in 1..Len(d.ps) : d.ps[j] = Prog(s).vars[i]} IN
+                               IF c = {} THEN s.vars[i] ELSE r.vs[CHOOSE j \in c : \A k \in c : k <= j]]
+                  b == Eval([s EXCEPT !.vars = bound, !.parsing = @ \cup {e.f}, !.havoc = @ \ {d.ps[j] : j \in 1..Len(d.ps)}], d.e)
+              IN IF ~b.ok THEN b
+                 ELSE IF IsIntVar(s, e.f) /\ ~InInt16(b.v) THEN Er(6) ELSE Ok(b.v)
 Eval(s, e) ==
     CASE e.k = "c"   -> Ok(e.v)
       [] e.k = "v"   -> IF e.n \in s.havoc THEN Er(-1) ELSE Ok(Get(s, e.n))
       [] e.k = "err" -> Ok(s.err)
       [] e.k = "erl" -> Ok(s.erl)
+      [] e.k = "fn"  -> EvalFn(s, e)
       [] e.k = "u"   -> LET a == Eval(s, e.a) IN
                         IF ~a.ok THEN a
                         ELSE IF e.o = "-" THEN Ok(-a.v)
@@ -250,6 +282,7 @@ DoReturn(s, st) ==
 
 DoOn(s, st) ==
     LET r == Eval(s, st.e) IN IF ~r.ok THEN Fail(s, r) ELSE
+    IF ~InInt16(r.v) THEN Raise(s, 6) ELSE                    \* the selector is converted to a 16-bit integer first
     IF r.v < 0 \/ r.v > 255 THEN Raise(s, 5) ELSE
     IF r.v = 0 \/ r.v > Len(st.ns) THEN Adv(s) ELSE
     IF st.t = "GOTO" THEN Jump(s, st.ns[r.v]) ELSE Sub(s, st.ns[r.v], After(s, s.cur), 0)
@@ -278,6 +311,7 @@ DoResume(s, st) ==
 
 DoError(s, st) ==
     LET r == Eval(s, st.e) IN IF ~r.ok THEN Fail(s, r) ELSE
+    IF ~InInt16(r.v) THEN Raise(s, 6) ELSE
     IF r.v < 1 \/ r.v > 255 THEN Raise(s, 5) ELSE Raise(s, r.v)
 
 (* ---------------- READ / DATA / RESTORE ---------------- *)
@@ -323,6 +357,23 @@ DispatchSeq(s, order) == IF order = <<>> THEN s ELSE DispatchSeq(Dispatch1(s, He
 Orders(S) == {o \in [1..Cardinality(S) -> S] : \A i, j \in 1..Cardinality(S) : i # j => o[i] # o[j]}
 Dispatched(s) == {DispatchSeq(s, o) : o \in Orders(Dispatchable(s))}
 
+(* ---------------- RUN / CLEAR (C23) ---------------- *)
+\* CLEAR: no variable, DEF FN, loop or subroutine stack, error trap, event trap or DATA position survives; execution
+\* continues with the next statement.  (keepGosub = TRUE gives the behaviour of the pinned code, which keeps the
+\* GOSUB stack: a listed known finding; traces only explained that way are reported as such, never silently accepted.)
+Cleared(s, keepGosub) ==
+    [s EXCEPT !.vars = [i \in 1..Len(s.vars) |-> 0], !.havoc = {}, !.fns = <<>>,
+              !.fors = <<>>, !.whiles = <<>>, !.gosubs = IF keepGosub THEN @ ELSE <<>>,
+              !.onerr = 0, !.inh = FALSE, !.resume = None, !.err = 0, !.erl = 0,
+              !.traps = NoTraps, !.susp = FALSE, !.dp = 1,
+              !.kf = @ \/ (keepGosub /\ s.gosubs # <<>>)]
+\* RUN [n] inside a program: everything is reset as at the start and execution continues at line n
+DoRun(s, st) ==
+    LET s1 == [Start(s.prog) EXCEPT !.cur = s.cur, !.kf = s.kf] IN
+    IF st.n = 0 THEN s1
+    ELSE IF LineIdx(s, st.n) = 0 THEN RaiseAt(s1, 8, -1)      \* the line reported for a RUN to a missing line is left open
+    ELSE Jump(s1, st.n)
+
 (* ---------------- one statement ---------------- *)
 Exec(s0) ==
     LET p == s0.pc IN
@@ -356,10 +407,16 @@ Exec(s0) ==
       [] st.op = "RESTORE" -> DoRestore(s, st)
       [] st.op = "TRAP"   -> DoTrapCmd(s, st)
       [] st.op = "ONTRAP" -> DoOnTrap(s, st)
+      [] st.op = "RUN"    -> DoRun(s, st)
+      [] st.op = "DEFFN"  -> Adv([s EXCEPT !.fns = Append(@, [f |-> st.f, ps |-> st.ps, e |-> st.e])])
       [] st.op = "REM"    -> [s EXCEPT !.pc = NextLine(s.cur)]
 
 \* a statement boundary: dispatch pending traps (any order), then execute one statement
-Steps(s) == {Exec(d) : d \in Dispatched(s)}
+IsClearAt(d) == ~AtEnd(d, d.pc) /\ StmtAt(d, d.pc).op = "CLEAR"
+Steps(s) == UNION {IF IsClearAt(d)
+                   THEN LET c == [d EXCEPT !.cur = d.pc, !.out = <<>>] IN
+                        {Adv(Cleared(c, FALSE))} \cup (IF d.gosubs # <<>> THEN {Adv(Cleared(c, TRUE))} ELSE {})
+                   ELSE {Exec(d)} : d \in Dispatched(s)}
 
 (* ---------------- observation ---------------- *)
 \* what a BASIC user can see at a statement boundary
